@@ -247,7 +247,7 @@ TopNames == {"Alpha", "Beta", "Gamma"}
 Init == /\ subject \in {"message", "enum", "file"}
         /\ ctx \in (IF subject = "message" THEN Contexts ELSE {NoCtx})
         /\ sh = IF subject = "message" THEN ShapeOf(ctx) ELSE NoShape
-        /\ tops \in (IF subject = "file" THEN SUBSET TopNames ELSE {{}})
+        /\ tops \in (IF subject = "file" THEN (SUBSET TopNames) \ {{}} ELSE {{}})
         /\ fields = <<>> /\ pend = Blank /\ pstage = 0 /\ phase = "build" /\ evals = <<>> /\ Quiet
 
 UNCH_side == UNCHANGED <<subject, ctx, sh, evals, genum, tops, manifest>>
@@ -284,8 +284,8 @@ Op(o) ==
   /\ obj' = Apply(gdecl.fields, obj, o)
   /\ ops' = Append(ops, o)
   /\ UNCHANGED <<fields, pend, pstage, phase, gdecl, wire, back, jkeys, wire2, gen>> /\ UNCH_side
-Encode ==          \* Class.serialize(instance)
-  /\ phase = "ready" /\ wire' = EncodeBy(gdecl.fields, obj) /\ phase' = "encoded"
+Encode ==          \* Class.serialize(instance)   (the simulation scope always runs scripts of full length)
+  /\ phase = "ready" /\ (Scope = "sim" => Len(ops) = MaxOps \/ fields = <<>>) /\ wire' = EncodeBy(gdecl.fields, obj) /\ phase' = "encoded"
   /\ UNCHANGED <<fields, pend, pstage, gdecl, ops, want, obj, back, jkeys, wire2, gen>> /\ UNCH_side
 DecodeByInput ==   \* dynamic message of the input descriptor parses the bytes
   /\ phase = "encoded" /\ back' = DecodeBy(InFields, wire) /\ phase' = "decoded"
